@@ -42,7 +42,19 @@ int main(void){
   in_th=nondet_R(); in_del=nondet_R();
   sq_thrown=0;
   R a[N];
-#ifdef IA_ALL
+#ifdef LINEAR
+  /* linearity of Rotate in the rotated vector, for every index pair of this dimension */
+  { R a2[N], as[N]; R lam=nondet_R();
+    for(int i=0;i<N;i++){ a[i]=nondet_R(); a2[i]=nondet_R(); as[i]=a[i]+lam*a2[i]; }
+    struct SU_vector A={D,N,a}, A2={D,N,a2}, AS={D,N,as};
+    for(unsigned p=0;p<D;p++) for(unsigned q=p+1;q<D;q++){
+      R c1[N], c2[N], c3[N]; for(int i=0;i<N;i++){ c1[i]=nondet_R(); c2[i]=nondet_R(); c3[i]=nondet_R(); }
+      struct SU_vector C1={D,N,c1}, C2={D,N,c2}, C3={D,N,c3};
+      Rotate(&A,D,C1,p,q,in_th,in_del); Rotate(&A2,D,C2,p,q,in_th,in_del); Rotate(&AS,D,C3,p,q,in_th,in_del);
+      for(int i=0;i<N;i++) __CPROVER_assert(c3[i]==c1[i]+lam*c2[i], "Rotate linear in the vector");
+    }
+  }
+#elif defined(IA_ALL)
   for(int g=0;g<N;g++){ for(int i=0;i<N;i++) a[i]=(i==g)?1.0:0.0; check_one(a); }
 #else
   for(int i=0;i<N;i++){
